@@ -73,3 +73,57 @@ SIW = Contract(
     frame=[],
     props=["C04", "C03", "C05"],
 )
+
+
+# ---------------------------------------------------------------- is_started / is_finished / is_occupied
+def by_contract(c):
+    return contract_handler(c)
+
+
+GETTER_OVERRIDES = {
+    "TestNode.shared_started_workers": by_contract(SSW),
+    "TestNode.shared_finished_workers": by_contract(SFW),
+    "TestNode.shared_involved_workers": by_contract(SIW),
+    "EdgeRegister.get_workers": get_workers_by_contract,
+}
+
+WF_NODE = [WF_BRIDGED] + WF_REGISTERS[:2] + [WF_SWARMS, "wf_map(TestSwarm.run_swarms)"]
+
+FLAT = "len(self.objects) == 0"
+SELF_SCOPE = "(worker is not None and 'swarm' not in self.params['pool_scope'] and self.params.get('nets_spawner') == 'lxc')"
+SWARM_SCOPE = "(worker is not None and 'cluster' not in self.params['pool_scope'] and self.params.get('nets_spawner') == 'remote')"
+
+
+def _threshold_contract(name, getter, flat_result, props):
+    own = f"{{w for w in self.{getter} if w.swarm_id == worker.swarm_id}}"
+    allh = "(self.shared_involved_workers & {*TestSwarm.run_swarms[worker.swarm_id].workers})"
+    return Contract(
+        target=f"{NODE}::TestNode.{name}",
+        params={"self": Ref("TestNode"), "worker": (Ref("TestWorker"), "nullable"), "threshold": INT},
+        requires=WF_NODE,
+        overrides=GETTER_OVERRIDES,
+        raises={
+            "ParamNotFound": f"not ({FLAT}) and worker is not None and 'pool_scope' not in self.params",
+            "KeyError": f"not ({FLAT}) and not {SELF_SCOPE} and {SWARM_SCOPE} and threshold == -1 "
+                        f"and worker.swarm_id not in TestSwarm.run_swarms",
+        },
+        ensures=[
+            ("flat", f"implies({FLAT}, result == {flat_result})"),
+            ("self_scope", f"implies(not ({FLAT}) and {SELF_SCOPE}, result == (worker in self.{getter}))"),
+            ("swarm_scope_all", f"implies(not ({FLAT}) and not {SELF_SCOPE} and {SWARM_SCOPE} and threshold == -1, "
+                                f"result == ({own} == {allh}))"),
+            ("swarm_scope_n", f"implies(not ({FLAT}) and not {SELF_SCOPE} and {SWARM_SCOPE} and threshold != -1, "
+                              f"result == (len({own}) >= threshold))"),
+            ("global_all", f"implies(not ({FLAT}) and not {SELF_SCOPE} and not {SWARM_SCOPE} and threshold == -1, "
+                           f"result == (self.{getter} == self.shared_involved_workers))"),
+            ("global_n", f"implies(not ({FLAT}) and not {SELF_SCOPE} and not {SWARM_SCOPE} and threshold != -1, "
+                         f"result == (len(self.{getter}) >= threshold))"),
+        ],
+        result_kind=BOOL,
+        frame=[],
+        props=props,
+    )
+
+
+IS_STARTED = _threshold_contract("is_started", "shared_started_workers", "False", ["C04"])
+IS_FINISHED = _threshold_contract("is_finished", "shared_finished_workers", "True", ["C03", "C05", "C01"])
